@@ -3,7 +3,7 @@ import torch
 
 EVIDENCE = dict(
     bounds="every 4-bit code symbolic (BV): v1 packing with and without column reordering on shapes rows in {4,8} x cols in {8,16,24,64}, v2 packing on (4,64), (8,128), (12,192) (quick: first two); v2 vs the reference external/awq/pack_intweight.py (interleave 4, kstride 64) by bit-vector equality of every packed word; representation equivalence on float16 group-128 tensors of shape (4,128) and (8,256) with arbitrary codes, int8 zero-points and positive scales; conversion back (qbits_tensor); non-contiguous sources and view/in-place histories on (8,64); __tensor_flatten__/__tensor_unflatten__ round trip of AWQBitsTensor",
-    outside="the CUDA gemm/gemv kernels that consume the layout; actual device moves; the selection of the optimised class in QBitsTensor.create/optimize (needs a CUDA device object); all of this code is executed on CPU tensors with the four `assert ...device.type == 'cuda'` statements removed in memory (listed in the evidence)",
+    outside="shapes beyond the bounds (element-count constants >= 2^15 found in the current AWQ source add a concrete, non-solver differential run against the reference packer just above them; none on the pinned tree); the CUDA gemm/gemv kernels that consume the layout; actual device moves; the selection of the optimised class in QBitsTensor.create/optimize (needs a CUDA device object); all of this code is executed on CPU tensors with the four `assert ...device.type == 'cuda'` statements removed in memory (listed in the evidence)",
     assumptions=["the numpy operations used by unpack_v2 and by the reference packer (astype, reshape, transpose, &, |, <<, >>, indexing) are interpreted by a bridge over the same terms", "AWQ modules imported with their device asserts deleted (nothing else changed)"],
 )
 CASE_DEADLINE = dict(quick=400.0, thorough=1500.0)
@@ -22,7 +22,19 @@ def cases(tier, seed):
         out.append(dict(kind="repr", shape=list(s)))
     for s in ([(8, 64)] if tier == "quick" else [(8, 64), (64, 8), (4, 128)]):
         out.append(dict(kind="layouts", shape=list(s)))
+    # element-count constants of the current AWQ source beyond symbolic reach (none on the pinned tree): the v2 clauses are run as
+    # a CONCRETE differential against the reference packer on shapes just above one and two multiples - not a solver result
+    from . import wq
+
+    for V, where in sorted(wq.big_constants(AWQ_FILES).items()):
+        K = 4096
+        n1 = -(-V // K // 4) * 4 + 4
+        for N in (n1, 2 * n1 - 4):
+            out.append(dict(kind="v2-large", shape=[N, K], constant=f"{V} at {where[0]}", deadline=900.0))
     return out
+
+
+AWQ_FILES = ["optimum/quanto/tensor/qbits/awq/packed.py", "optimum/quanto/tensor/qbits/awq/qbits.py"]
 
 
 def setup():
@@ -56,6 +68,16 @@ def run_case(case, res):
     P, Q, removed = setup()
     res.notes.append("asserts removed in memory: " + "; ".join(removed))
     shape = tuple(case["shape"])
+    if case["kind"] == "v2-large":
+        for gseed in (0, 1):
+            rec_ = dict(inputs=dict(kind="v2", gen=dict(shape=list(shape), seed=gseed)))
+            bad, msg, _ = replay(rec_)
+            res.side_ok("v2-large-concrete-differential", not bad, f"{shape} seed {gseed} ({case['constant']}): {msg}")
+            res.notes.append(f"{shape}: beyond symbolic reach ({case['constant']}); concrete differential only, the universal claim is undecided at this size")
+            if bad:
+                res.side[-1]["replayed"] = True
+                res.candidate("v2-large", "concrete", rec_["inputs"], exact=True)
+        return
 
     def eq_query(name, A, B, X, extra_pre=(), sub=""):
         ctx = m.ctx
@@ -277,7 +299,10 @@ def replay(rec):
             probs.append("modifying the result of an earlier operation changed what the packed tensor converts to")
         return bool(probs), "; ".join(probs) or "layouts ok", None
     if inp["kind"] in ("v1", "v2"):
-        x = api.dec_tensor(inp["x"])
+        if "gen" in inp:
+            x = torch.randint(0, 16, tuple(inp["gen"]["shape"]), generator=torch.Generator().manual_seed(inp["gen"]["seed"]), dtype=torch.uint8)
+        else:
+            x = api.dec_tensor(inp["x"])
         if inp["kind"] == "v1":
             t = P.AWQPackedTensor.pack(x, packing=P.AWQPacking.V1, reorder=inp["reorder"])
             u = t.unpack()
